@@ -696,6 +696,10 @@ pub fn rand_common(ctx: &mut Ctx, allow_npf: bool) -> Common {
         // string they are one code point, as bytes several
         tokens.push(["\u{a7}", "\u{e9}", "\u{ff}", "\u{80}"][ctx.rng.random_range(0..4)].into());
         tokens.push(["\u{20ac}", "\u{1F600}", "\u{3a9}", "\u{b6}"][ctx.rng.random_range(0..4)].into());
+    } else if r < 96 {
+        // a list that does not name the unknown token but has entries that CONTAIN its spelling (and one that is
+        // contained in it)
+        tokens = vec!["<pad>".into(), "<unk>_2".into(), "<bos>".into(), "x<x>".into(), "unk".into()];
     }
     // (half of the time the LAST tokens of the list: the ones behind any repeated entry)
     let pick = |ctx: &mut Ctx, toks: &Vec<String>| if ctx.rng.random_bool(0.5) { toks[toks.len() - 1 - ctx.rng.random_range(0..toks.len().min(2))].clone() } else { toks[ctx.rng.random_range(0..toks.len())].clone() };
@@ -1062,6 +1066,15 @@ pub fn run_bpe(ctx: &mut Ctx, c03: bool) {
                 }
                 enc_bytes(&mut v, &w);
                 ctx.case("bpeword", &v);
+            }
+        }
+        if c03 && ctx.rng.random_range(0..3) == 0 {
+            // the table in effect under max_vocab_size (also below 256 + number of special tokens: no merge at all)
+            let c = Common { tokens: vec!["<unk>".into(), "<bos>".into(), "<eos>".into(), "<pad>".into()], pad: "<pad>".into(), prefix: vec![], suffix: vec![] };
+            for mv in [0usize, 100, 256, 259, 260, 261, 260 + t.len() / 2, 260 + t.len()] {
+                let kind = Kind::Bpe { table: t.clone(), max_vocab: Some(mv) };
+                let s = bpe_text(ctx, letters, 14);
+                emit_tok(ctx, "bpetok", &kind, &c, &s, true, false);
             }
         }
         if c03 {
